@@ -140,6 +140,18 @@ class Gen:
         value = self.text()
         name = 'gen%d.js' % r.randrange(0, 3)
         if kind == 'sms' and r.random() < self.cfg.wild:
+            if r.random() < self.cfg.inner:
+                # wild outer and/or inner map around the combined-map code
+                inner_name = 'inner%d.js' % self.ninner
+                self.ninner += 1
+                outer = self.wild_map(value)
+                if not outer['sources']:
+                    outer['sources'] = ['w0.js']
+                outer['sources'][r.randrange(0, len(outer['sources']))] = inner_name
+                original = self.text(10)
+                inner = self.wild_map(original) if r.random() < 0.6 else self.consistent_map(original)
+                give = r.random()
+                return ('sms', value, inner_name, outer, original if give < 0.6 else None, inner, r.random() < 0.3)
             return ('sms', value, name, self.wild_map(value), None, None, False)
         if kind == 'sms' and r.random() < self.cfg.inner:
             return self.combined(value, name)
